@@ -109,6 +109,9 @@ pub fn write_file(
 
     let mut writer = flate2::write::GzEncoder::new(file, flate2::Compression::new(5));
     to_mps::write_mps(instance, &mut writer)?;
+    // Finish the gzip stream explicitly: dropping the encoder would discard any I/O error
+    // (e.g. disk full) raised while the compressed data and trailer are flushed.
+    writer.finish()?;
     Ok(())
 }
 
